@@ -207,7 +207,7 @@ Qed.
 
 Definition rows_wfb (n : nat) (rows : list (list plane)) : bool :=
   forallb (fun r => Nat.eqb (List.length r) n) rows
-  && (if Nat.eqb n 0 then Nat.leb (List.length rows) 1 else negb (Nat.eqb (List.length rows) 0)).
+  && (if Nat.eqb n 0 then Nat.leb (List.length rows) 1 else true).
 
 Lemma cover_wf_rows sigs rows : cover_wf sigs rows = true ->
   exists ins o, sigs = (ins ++ [o])%list /\ rows_wfb (List.length ins) rows = true.
@@ -262,9 +262,10 @@ Proof.
   - apply Nat.eqb_neq in En. apply (pair_tokens_rows n); auto.
 Qed.
 
-Lemma tok_arity_tokens n rows : rows_wfb n rows = true -> tok_arity (tokens_of_rows rows) = n.
+Lemma tok_arity_tokens n rows : rows_wfb n rows = true -> rows <> [] ->
+  tok_arity (tokens_of_rows rows) = n.
 Proof.
-  intro H. pose proof (rows_wfb_width _ _ H) as Hw.
+  intros H Hne. pose proof (rows_wfb_width _ _ H) as Hw.
   unfold rows_wfb in H. apply andb_prop in H. destruct H as [_ H].
   destruct (Nat.eqb n 0) eqn:En.
   - apply Nat.eqb_eq in En. subst n. apply Nat.leb_le in H.
@@ -272,9 +273,15 @@ Proof.
     assert (r = []) by (assert (List.length r = O) by (apply Hw; left; reflexivity); destruct r; simpl in *; [auto|lia]).
     subst r. reflexivity.
   - apply Nat.eqb_neq in En.
-    destruct rows as [|r rows]; [simpl in H; discriminate|].
+    destruct rows as [|r rows]; [congruence|].
     assert (Hr : List.length r = n) by (apply Hw; left; reflexivity).
     destruct r as [|p r]; [simpl in Hr; lia|]. simpl. exact Hr.
+Qed.
+
+Lemma tokens_nonempty rows : rows <> [] -> tokens_of_rows rows <> [].
+Proof.
+  destruct rows as [|r rows]; [congruence|]. intros _. unfold tokens_of_rows. simpl.
+  destruct r; discriminate.
 Qed.
 
 (* ------------------------------------------------------------------ *)
@@ -299,16 +306,30 @@ Definition env_of (vs : list bool) (x : sig) : bool :=
 Definition var_in_range (n : nat) (x : sig) : bool :=
   match x with L i => (0 <=? i) && (i <? Z.of_nat n) | _ => false end.
 
-Definition special_entry_ok (en : list (list plane) * Z * bexp) : bool :=
-  let '(toks, k, e) := en in
+(* the destination index (Python indexing into netio) denotes the LAST signal *)
+Definition dest_is_last (k : Z) (n : nat) : bool := Z.eqb k (Z.of_nat n) || Z.eqb k (-1).
+
+(* a literal with at least one token fixes the number of inputs *)
+Definition special_rows_ok (toks : list (list plane)) (k : Z) (e : bexp) : bool :=
   let n := tok_arity toks in
   match untoken n toks with
   | Some rows =>
       if rows_wfb n rows then
-        Z.eqb k (Z.of_nat n) && negb (has_absent e) && forallb (var_in_range n) (bvars e)
+        dest_is_last k n && negb (has_absent e) && forallb (var_in_range n) (bvars e)
         && forallb (fun vs => Bool.eqb (beval (env_of vs) e) (cover_sem rows vs)) (all_vals n)
       else true
   | None => true
+  end.
+
+(* the empty literal (no rows) matches covers of EVERY arity: the destination
+   must be netio[-1], the expression closed and equal to 0 *)
+Definition special_entry_ok (en : list (list plane) * Z * bexp) : bool :=
+  let '(toks, k, e) := en in
+  match toks with
+  | [] => Z.eqb k (-1) && negb (has_absent e)
+          && (match bvars e with [] => true | _ => false end)
+          && negb (beval (fun _ => false) e)
+  | _ :: _ => special_rows_ok toks k e
   end.
 
 (* bound: 8 entries x at most 2^2 valuations (as many as the table has) *)
@@ -344,6 +365,19 @@ Proof.
   rewrite (nth_error_nth' ins o) by lia. reflexivity.
 Qed.
 
+Lemma py_index_last {A} (ins : list A) (o : A) k :
+  dest_is_last k (List.length ins) = true -> py_index (ins ++ [o]) k = Some o.
+Proof.
+  unfold dest_is_last, py_index. intro H. rewrite app_length. simpl List.length.
+  apply orb_prop in H. destruct H as [H|H]; apply Z.eqb_eq in H; subst k.
+  - destruct (0 <=? Z.of_nat (List.length ins)) eqn:E; [|apply Z.leb_gt in E; lia].
+    rewrite ?E. rewrite Nat2Z.id. apply nth_error_app_last.
+  - change (0 <=? -1) with false. cbv iota.
+    replace (Z.of_nat (List.length ins + 1) + -1) with (Z.of_nat (List.length ins)) by lia.
+    destruct (0 <=? Z.of_nat (List.length ins)) eqn:E; [|apply Z.leb_gt in E; lia].
+    rewrite Nat2Z.id. apply nth_error_app_last.
+Qed.
+
 Lemma last_opt_app_one {A} (l : list A) (x : A) : last_opt (l ++ [x]) = Some x.
 Proof.
   unfold last_opt. destruct (l ++ [x])%list as [|a l0] eqn:E.
@@ -367,32 +401,49 @@ Proof.
     apply find_special_in in Hf.
     pose proof cover_special_table_ok as Hok. rewrite forallb_forall in Hok.
     specialize (Hok _ Hf). unfold special_entry_ok in Hok.
-    rewrite (tok_arity_tokens n), (untoken_tokens n), Hrows in Hok by assumption.
-    apply andb_prop in Hok. destruct Hok as [Hok Hsem].
-    apply andb_prop in Hok. destruct Hok as [Hok Hvars].
-    apply andb_prop in Hok. destruct Hok as [Hk Habs].
-    apply Z.eqb_eq in Hk. subst k. apply negb_true_iff in Habs.
-    rewrite forallb_forall in Hvars. rewrite forallb_forall in Hsem.
-    assert (E0 : (0 <=? Z.of_nat n) = true) by (apply Z.leb_le; lia).
-    rewrite E0, Nat2Z.id. unfold n at 1. rewrite nth_error_app_last.
-    assert (Hva : forall x, In x (bvars e0) -> exists i, x = L i /\ 0 <= i < Z.of_nat n).
-    { intros x Hx. apply Hvars in Hx. destruct x as [i|]; [|discriminate].
-      simpl in Hx. apply andb_prop in Hx. destruct Hx as [A B].
-      apply Z.leb_le in A. apply Z.ltb_lt in B. exists i. split; [reflexivity|lia]. }
-    rewrite absent_bsubst; [|exact Habs|].
-    2:{ intros x Hx. destruct (Hva x Hx) as (i & -> & Hi).
-        rewrite twire_ix_in_range by exact Hi. reflexivity. }
-    eexists. split; [reflexivity|].
-    intro rho. rewrite beval_bsubst.
-    rewrite (beval_ext e0 _ (env_of (map rho ins))).
-    + specialize (Hsem (map rho ins)).
-      assert (Hin : In (map rho ins) (all_vals n)).
-      { replace n with (List.length (map rho ins)) by (rewrite map_length; reflexivity). apply in_all_vals. }
-      apply Hsem in Hin. apply eqb_prop in Hin. exact Hin.
-    + intros x Hx. destruct (Hva x Hx) as (i & -> & Hi).
-      rewrite twire_ix_in_range by exact Hi. simpl.
-      rewrite <- (map_nth rho ins o).
-      apply nth_indep. rewrite map_length. lia.
+    destruct rows as [|r0 rows0].
+    + (* no rows: constant 0 at every arity *)
+      simpl in Hok.
+      apply andb_prop in Hok. destruct Hok as [Hok Hsem].
+      apply andb_prop in Hok. destruct Hok as [Hok Hvars].
+      apply andb_prop in Hok. destruct Hok as [Hk Habs].
+      apply negb_true_iff in Habs. apply negb_true_iff in Hsem.
+      destruct (bvars e0) eqn:Hbv; [|discriminate].
+      rewrite (py_index_last ins o k) by (unfold dest_is_last; rewrite Hk; apply orb_true_r).
+      rewrite absent_bsubst; [|exact Habs|rewrite Hbv; intros x []].
+      eexists. split; [reflexivity|].
+      intro rho. rewrite beval_bsubst.
+      rewrite (beval_ext e0 _ (fun _ => false)) by (rewrite Hbv; intros x []).
+      exact Hsem.
+    + assert (Hne : r0 :: rows0 <> []) by discriminate.
+      set (rows := r0 :: rows0) in *.
+      destruct (tokens_of_rows rows) as [|t ts] eqn:Etok; [exfalso; exact (tokens_nonempty rows Hne Etok)|].
+      rewrite <- Etok in Hok. unfold special_rows_ok in Hok.
+      rewrite (tok_arity_tokens n), (untoken_tokens n), Hrows in Hok by assumption.
+      apply andb_prop in Hok. destruct Hok as [Hok Hsem].
+      apply andb_prop in Hok. destruct Hok as [Hok Hvars].
+      apply andb_prop in Hok. destruct Hok as [Hk Habs].
+      apply negb_true_iff in Habs.
+      rewrite forallb_forall in Hvars. rewrite forallb_forall in Hsem.
+      rewrite (py_index_last ins o k Hk).
+      assert (Hva : forall x, In x (bvars e0) -> exists i, x = L i /\ 0 <= i < Z.of_nat n).
+      { intros x Hx. apply Hvars in Hx. destruct x as [i|]; [|discriminate].
+        simpl in Hx. apply andb_prop in Hx. destruct Hx as [A B].
+        apply Z.leb_le in A. apply Z.ltb_lt in B. exists i. split; [reflexivity|lia]. }
+      rewrite absent_bsubst; [|exact Habs|].
+      2:{ intros x Hx. destruct (Hva x Hx) as (i & -> & Hi).
+          rewrite twire_ix_in_range by exact Hi. reflexivity. }
+      eexists. split; [reflexivity|].
+      intro rho. rewrite beval_bsubst.
+      rewrite (beval_ext e0 _ (env_of (map rho ins))).
+      * specialize (Hsem (map rho ins)).
+        assert (Hin : In (map rho ins) (all_vals n)).
+        { replace n with (List.length (map rho ins)) by (rewrite map_length; reflexivity). apply in_all_vals. }
+        apply Hsem in Hin. apply eqb_prop in Hin. exact Hin.
+      * intros x Hx. destruct (Hva x Hx) as (i & -> & Hi).
+        rewrite twire_ix_in_range by exact Hi. simpl.
+        rewrite <- (map_nth rho ins o).
+        apply nth_indep. rewrite map_length. lia.
   - (* generic sum of products *)
     destruct (Nat.eqb n 0) eqn:En.
     + (* no inputs: rows = [] (constant 0 through the generic path) or [[]] (always special) *)
